@@ -465,4 +465,5 @@ def cases(tier, seed):
     for i in range(0, len(stems), 2):
         out.append(Case("H08.e", f"case-insensitive-history:{i}", M, "h_case_insensitive_history", {"stems": stems[i : i + 2]}, kind="conc"))
     out.append(Case("H08.f", "delta-reading", M, "h_delta_reading", {}, kind="conc"))
+    out.append(Case("H08.obs", "observed", "pvlib.harness.observed", "h_c08", {}, kind="conc"))
     return out
